@@ -3,6 +3,7 @@ import FmpRpc.Model.Monitors
 import Driver.Sat
 import FmpRpc.Model.ConnMon
 import FmpRpc.Model.Replay
+import FmpRpc.Model.ConnReplay
 /-
   Oracle: runs the model's executable definitions on the operations the Go
   harness ran on the implementation, one line in, one line out.
@@ -80,6 +81,7 @@ def handle (line : String) : String :=
   | "tlsdial2" :: rest => Sat.tlsdial2 rest
   | ["selfcheck"] => "ok"
   | "replay" :: _ => T.replay ((line.drop 7).toString)
+  | "creplay" :: _ => Cn.replay ((line.drop 8).toString)
   | "cmon" :: _ =>
     let v := CM.all (CM.parseHist ((line.drop 5).toString))
     if v.isEmpty then "ok" else "viol " ++ " ".intercalate v
